@@ -343,6 +343,22 @@ func famTimer(t *testing.T, r *Rec) {
 			}
 		}
 	}
+	// the same timeout cancelled while the re-arming its callback did is still pending: it never runs again
+	for _, p := range []int{6, 10} {
+		lines := []string{"tm cfg", fmt.Sprintf("tm timeoutself 0 %d 3", p), fmt.Sprintf("tm sleep %d", p+p/2), "tm stop 0", fmt.Sprintf("tm sleep %d", 6*p)}
+		outs, fault := runIsolated(lines, 20*time.Second)
+		for len(outs) < len(lines) {
+			outs = append(outs, "fault:"+fault)
+		}
+		r.scenarios++
+		for i, l := range lines {
+			r.Op(l, outs[i])
+		}
+		r.Cover(fmt.Sprintf("timer/timeoutself-then-stop/%d", p))
+		if fault != "" || outs[2] != fmt.Sprintf("fired=0@%d g=1", p) || outs[4] != "fired=- g=0" {
+			r.Violate("C19", "C19/stop-after-refresh-from-callback", fmt.Sprintf("a timeout re-armed from its own callback and then cancelled: %s / %s / %s %s (want one run, then none after the cancel, no goroutine left)", outs[2], outs[3], outs[4], fault), lines)
+		}
+	}
 	famTimerWindow(t, r)
 }
 
